@@ -60,17 +60,18 @@ def norm_clauses(cl):
     out = []
     for i, c in enumerate(cl or []):
         if isinstance(c, str):
-            out.append((f'#{i}', c))
+            out.append((f'#{i}', c, None))
         else:
-            out.append((c[0], c[1]))
+            out.append((c[0], c[1], (c[2] if len(c) > 2 else None)))
     return out
 
 
 class Clause:
     """A named explicit obligation with its byte range in the generated file."""
 
-    def __init__(self, fn, kind, name, text):
+    def __init__(self, fn, kind, name, text, props=None):
         self.fn, self.kind, self.name, self.text = fn, kind, name, text
+        self.props = props          # None -> the fn's properties
         self.s = self.e = None
 
     @property
@@ -214,15 +215,15 @@ def _spec_objs(fnq, a: A):
     ens = norm_clauses(a.ensures)
     if req:
         objs.append('\n    requires\n')
-        for n, t in req:
+        for n, t, pp in req:
             objs.append('        ')
-            objs.append(Clause(fnq, 'requires', n, t))
+            objs.append(Clause(fnq, 'requires', n, t, pp))
             objs.append(',\n')
     if ens:
         objs.append('\n    ensures\n')
-        for n, t in ens:
+        for n, t, pp in ens:
             objs.append('        ')
-            objs.append(Clause(fnq, 'ensures', n, t))
+            objs.append(Clause(fnq, 'ensures', n, t, pp))
             objs.append(',\n')
     if a.decreases:
         objs.append(f'\n    decreases {a.decreases}\n')
@@ -320,15 +321,15 @@ def annotate_fn(unit, src, it, fnq, a: A, em: Emitter, canary=None):
                 em.insert_before_tok(lb, '\n' + spec['raw'] + '\n')
             if inv:
                 em.insert_before_tok(lb, '\n    invariant\n')
-                for n, t in inv:
+                for n, t, pp in inv:
                     em.insert_before_tok(lb, '        ')
-                    em.insert_before_tok(lb, Clause(fnq, f'invariant[{kidx}]', n, t))
+                    em.insert_before_tok(lb, Clause(fnq, f'invariant[{kidx}]', n, t, pp))
                     em.insert_before_tok(lb, ',\n')
             if spec.get('ensures'):
                 em.insert_before_tok(lb, '\n    ensures\n')
-                for n, t in norm_clauses(spec['ensures']):
+                for n, t, pp in norm_clauses(spec['ensures']):
                     em.insert_before_tok(lb, '        ')
-                    em.insert_before_tok(lb, Clause(fnq, f'loop-ensures[{kidx}]', n, t))
+                    em.insert_before_tok(lb, Clause(fnq, f'loop-ensures[{kidx}]', n, t, pp))
                     em.insert_before_tok(lb, ',\n')
             if spec.get('decreases'):
                 em.insert_before_tok(lb, f'\n    decreases {spec["decreases"]}\n')
@@ -365,12 +366,12 @@ def annotate_fn(unit, src, it, fnq, a: A, em: Emitter, canary=None):
             ens = norm_clauses(spec.get('ensures'))
             if req:
                 objs.append('\n    requires\n')
-                for n, t in req:
-                    objs += ['        ', Clause(fnq, f'closure[{kidx}]-requires', n, t), ',\n']
+                for n, t, pp in req:
+                    objs += ['        ', Clause(fnq, f'closure[{kidx}]-requires', n, t, pp), ',\n']
             if ens:
                 objs.append('\n    ensures\n')
-                for n, t in ens:
-                    objs += ['        ', Clause(fnq, f'closure[{kidx}]-ensures', n, t), ',\n']
+                for n, t, pp in ens:
+                    objs += ['        ', Clause(fnq, f'closure[{kidx}]-ensures', n, t, pp), ',\n']
             for o in objs:
                 em.insert_before_tok(bs, o)
             if not c['block']:
@@ -419,14 +420,14 @@ def annotate_fn(unit, src, it, fnq, a: A, em: Emitter, canary=None):
 
 
 def _wrap_arm_obj(fnq, pat, o):
-    if isinstance(o, tuple):  # (name, assertion text) -> named assert clause
-        return _AssertClause(fnq, o[0], o[1])
+    if isinstance(o, tuple):  # (name, assertion text[, props]) -> named assert clause
+        return _AssertClause(fnq, o[0], o[1], o[2] if len(o) > 2 else None)
     return o
 
 
 class _AssertClause(Clause):
-    def __init__(self, fnq, name, text):
-        super().__init__(fnq, 'assert', name, text)
+    def __init__(self, fnq, name, text, props=None):
+        super().__init__(fnq, 'assert', name, text, props)
 
 
 def _has_vis(toks, it):
